@@ -45,11 +45,14 @@ STATEMENTS = [
     ('import', 'import os', False), ('import2', 'import sys', False), ('import-dotted', 'import os.path', False), ('import-as', 'import json as js_', False),
     ('from', 'from os import sep', False), ('from2', 'from os import linesep', False), ('from-other', 'from sys import argv', False),
     ('from-as', 'from os import sep as sep_', False), ('from-future-like', 'from os.path import join', False),
+    ('from-rel1', 'from . import r_one', False), ('from-rel2', 'from .. import r_two', False), ('from-rel1-mod', 'from .os import sep', False),
+    ('from-star', 'from os.path import *', False),
     ('return-none', 'return None', True), ('return', 'return', True), ('return-value', 'return obs(30)', True),
     ('return-none-cond', 'if flag:\n return None', True),
     ('raise', 'raise ValueError()', False), ('raise-noparen', 'raise ValueError', False), ('raise-arg', 'raise ValueError(1)', False),
     ('raise-from', 'raise ValueError() from KeyError()', False), ('raise-attr', 'raise os_.error()', False),
-    ('raise-nonexc', 'raise int()', False), ('raise-kw', 'raise ValueError(*())', False),
+    ('raise-nonexc', 'raise int()', False), ('raise-kw', 'raise ValueError(*())', False), ('raise-kwonly', "raise ImportError(name='n_')", False),
+    ('raise-dstar', 'raise ImportError(**{})', False),
     ('ann-value', 'a_:int=obs(40)', False), ('ann-novalue', 'b_:int', False), ('ann-attr', 'ns_.c:int=1', False), ('ann-sideeffect-free', 'd_:"int"=2', False),
     ('class-object', 'class K(object):pass', False), ('class-object-2', 'class K(object,metaclass=type):x=1', False),
     ('class-base', 'class K(Exception,object):pass', False),
